@@ -573,7 +573,11 @@ func (w *World) enabled() []action {
 	}
 	sort.Ints(ids)
 	for _, id := range ids {
-		acts = append(acts, action{kind: "resume", weight: 12, task: w.parked[id]})
+		wt := 12
+		if t := w.parked[id]; t.Call != nil && t.Call.Kind == "store" {
+			wt = 3 // a reconcile preempted between reading the counter and its compare-and-add stays so for a while
+		}
+		acts = append(acts, action{kind: "resume", weight: wt, task: w.parked[id]})
 	}
 	// kubelet
 	for _, p := range w.kube.due() {
